@@ -1,0 +1,34 @@
+//go:build verif
+
+// Contracts for the verifier in /verif (comment-only file; compiled only with -tags verif).
+
+package tls
+
+//@ func BoringPaddingStyle
+//@   property C05
+//@   pure
+//@   ensures inrange: unpaddedLen > 0xff && unpaddedLen < 0x200 ==> ret1
+//@   ensures pad512: unpaddedLen > 0xff && unpaddedLen < 0x200 && 0x200 - unpaddedLen >= 5 ==> ret0 == 0x200 - unpaddedLen - 4
+//@   ensures pad1: unpaddedLen > 0xff && unpaddedLen < 0x200 && 0x200 - unpaddedLen < 5 ==> ret0 == 1
+//@   ensures outside: !(unpaddedLen > 0xff && unpaddedLen < 0x200) ==> ret0 == 0 && !ret1
+//@   ensures total512: ret1 && 0x200 - unpaddedLen >= 5 ==> unpaddedLen + 4 + ret0 == 512
+
+//@ func (*SupportedCurvesExtension).Len
+//@   property C08
+//@   requires e != nil
+//@   pure
+//@   ensures ret == 6 + 2*len(e.Curves)
+
+//@ func (*SupportedCurvesExtension).Read
+//@   property C08
+//@   let n = len(e.Curves)
+//@   requires e != nil
+//@   requires arr(b) != arr(e.Curves)
+//@   modifies b[0..6+2*n]
+//@   ensures short: len(b) < 6+2*n ==> ret0 == 0 && ret1 == io.ErrShortBuffer && unchanged(b)
+//@   ensures ok: len(b) >= 6+2*n ==> ret0 == 6+2*n && ret1 == io.EOF
+//@   ensures hdr: len(b) >= 6+2*n ==> b[0] == 0 && b[1] == 10 && b[2]*256+b[3] == (2+2*n) % 65536 && b[4]*256+b[5] == (2*n) % 65536
+//@   ensures body: len(b) >= 6+2*n ==> forall j in 0..n: b[6+2*j]*256 + b[7+2*j] == e.Curves[j]
+//@   loop 0 invariant -1 <= $rangeindex && $rangeindex < n
+//@   loop 0 invariant forall j in 0..$k: b[6+2*j]*256 + b[7+2*j] == e.Curves[j]
+//@   loop 0 invariant b[0] == 0 && b[1] == 10 && b[2]*256+b[3] == (2+2*n) % 65536 && b[4]*256+b[5] == (2*n) % 65536
